@@ -58,6 +58,8 @@ pub struct Case {
 }
 
 struct CommWorld {
+    rd_out_call: Vec<u8>, // bytes handed to the parent from stdout / stderr during the current library call
+    rd_err_call: Vec<u8>,
     fd_in: c_int,
     fd_out: c_int,
     fd_err: c_int,
@@ -567,6 +569,11 @@ impl Kernel for CommWorld {
                 let src = if is_err { &mut self.err_buf } else { &mut self.out_buf };
                 let data: Vec<u8> = src.drain(..k).collect();
                 buf[..k].copy_from_slice(&data);
+                if is_err {
+                    self.rd_err_call.extend_from_slice(&data);
+                } else {
+                    self.rd_out_call.extend_from_slice(&data);
+                }
                 self.now += dt;
                 self.since = self.now;
                 self.no_progress = 0;
@@ -580,7 +587,11 @@ impl Kernel for CommWorld {
                 // an EOF answer is progress only the first time: a parent that keeps reading it spins
                 return Ans::Ret(0);
             }
-            if self.child_step() {
+            // the pipe is empty and a writer exists: the parent is blocked in read(), so the child may be slow (as in poll)
+            self.in_poll = true;
+            let stepped = self.child_step();
+            self.in_poll = false;
+            if stepped {
                 continue;
             }
             return Ans::Err(self.deadlock(if is_err { "read(stderr)" } else { "read(stdout)" }));
@@ -699,6 +710,8 @@ pub fn run_case(p: &mut Popen, c: &Case) -> CaseOut {
         expect_write_next: false,
         aborted: false,
         had_timeout: false,
+        rd_out_call: vec![],
+        rd_err_call: vec![],
     };
     let wp: *mut CommWorld = &mut w;
     let mut results: Vec<String> = vec![];
@@ -768,7 +781,34 @@ pub fn run_case(p: &mut Popen, c: &Case) -> CaseOut {
             w.first_clock_pending = *tl;
             w.calls_past_deadline = 0;
             let t_start = w.now;
-            let r = match std::panic::catch_unwind(std::panic::AssertUnwindSafe(|| comm.read())) {
+            w.rd_out_call.clear();
+            w.rd_err_call.clear();
+            // text mode (a share of the cases): the same exchange through `read_string()`.  Its result is the lossy decoding of
+            // what this call took from the pipes; for the comparisons below the bytes themselves stand in for it, except that
+            // "all strings empty" is kept as such (it is what tells the caller that the exchange is over)
+            let text_mode = c.wseed & 6 == 6;
+            let r = match std::panic::catch_unwind(std::panic::AssertUnwindSafe(|| {
+                if text_mode {
+                    match comm.read_string() {
+                        Ok((o, e)) => {
+                            let empty = o.as_ref().map_or(true, |s| s.is_empty()) && e.as_ref().map_or(true, |s| s.is_empty());
+                            let lossy_ok = o.as_deref().map_or(true, |s| s == String::from_utf8_lossy(&w.rd_out_call))
+                                && e.as_deref().map_or(true, |s| s == String::from_utf8_lossy(&w.rd_err_call));
+                            if !empty && !lossy_ok {
+                                w.problem("C02", "read_string(): the text is not the lossy UTF-8 decoding of the bytes this call took from the pipes".into());
+                            }
+                            if empty {
+                                Ok((o.map(|_| vec![]), e.map(|_| vec![])))
+                            } else {
+                                Ok((o.map(|_| w.rd_out_call.clone()), e.map(|_| w.rd_err_call.clone())))
+                            }
+                        }
+                        Err(e) => Err(subprocess::CommunicateError { error: e.error, capture: (e.capture.0.map(|_| w.rd_out_call.clone()), e.capture.1.map(|_| w.rd_err_call.clone())) }),
+                    }
+                } else {
+                    comm.read()
+                }
+            })) {
                 Ok(r) => r,
                 Err(_) => {
                     // no result at all: whatever the limits were, a read either returns data or an error
@@ -1201,6 +1241,25 @@ fn direct(c: &mut Case, idx: usize, mut rng: Rng) {
             c.fault_pm = *rng.pick(&[0u64, 0, 120]);
             c.cap_out = c.cap_out.max(4096);
             c.cap_err = c.cap_err.max(4096);
+            c.tiny_ok = false;
+        }
+        // no input to feed; the child says exactly k whole 4096-byte blocks on one stream and then nothing for a long time,
+        // with the stream left open: a read that came back with a full buffer says nothing about what is still pending
+        3 | 23 => {
+            c.has_in = false;
+            c.input = vec![];
+            c.has_out = true;
+            let k = *rng.pick(&[1usize, 1, 2, 3]);
+            let on_err = c.has_err && rng.chance(1, 3);
+            c.script = vec![CAct::Write(on_err, pattern(&mut rng, 4096 * k, false)), CAct::Sleep, CAct::Sleep, CAct::Sleep,
+                            CAct::Write(false, pattern(&mut rng, 4, false))];
+            c.cap_out = 65536;
+            c.cap_err = 65536;
+            c.session = vec![(None, Some(*rng.pick(&[100 * NS_PER_MS, 300 * NS_PER_MS]))); 5];
+            c.long_sleep = 1500 * NS_PER_MS;
+            c.dt_max = *rng.pick(&[1000u64, 300_000]);
+            c.fault_pm = 0;
+            c.eager_child = 8;
             c.tiny_ok = false;
         }
         _ => {}
